@@ -254,11 +254,12 @@ class kLeastAbsErrorsCycles(walkmodel.AbstractWalkModelDiGraph):
     def _encode_leastabserrors_decomposition(self):
 
         # pi vars 
+        # pi = x * weight: a walk may traverse an edge up to edge_upper_bounds times, so the product can reach edge_upper_bounds * w_max
         self.pi_vars = self.solver.add_variables(
             self.edge_indexes,
             name_prefix="pi",
             lb=0,
-            ub=self.w_max,
+            ub=[float(self.w_max * max(1, self.edge_upper_bounds[(u, v)])) for (u, v, i) in self.edge_indexes],
             var_type="integer" if self.weight_type == int else "continuous",
         )
         self.path_weights_vars = self.solver.add_variables(
